@@ -433,3 +433,19 @@ def run_impl_str(model: Model, op: str, item_type: Any, src: str):
     model.log.clear()
     ds = OS(ast.Name(id="ds", ctx=ast.Load()), item_type)
     return _finish_impl(model, lambda: getattr(ds, op)(src))
+
+
+_OP_KW = {}
+
+
+def op_call(r, recv, op: str, lam_node, p_kw: float = 0.35):
+    """recv.op(lambda) as the user may write it: the lambda positionally or by keyword, under the name the operator's
+    own signature gives its first parameter (read from the live ObjectStream class: f / func / filter)"""
+    from func_adl import ObjectStream
+
+    if op not in _OP_KW:
+        _OP_KW[op] = list(inspect.signature(getattr(ObjectStream, op)).parameters)[1]
+    f = ast.Attribute(value=recv, attr=op, ctx=ast.Load())
+    if r.random() < p_kw:
+        return ast.Call(func=f, args=[], keywords=[ast.keyword(arg=_OP_KW[op], value=lam_node)])
+    return ast.Call(func=f, args=[lam_node], keywords=[])
